@@ -1,8 +1,1087 @@
-// C12 harness (stub: replaced by the real harness).
-use crate::vx::report::Report;
+// C12 — RPKI origin validation = RFC 6811, and VRP maintenance = set semantics.
+//
+// Part (a): bounded-exhaustive validation sweep.  A small w-bit address space is
+//   embedded at a bit offset inside real IPv4 / IPv6 addresses so that the prefix
+//   lengths straddle byte boundaries (the trie keys of the subject are
+//   `address bytes ++ [length]`).  ALL VRP sets up to a size bound x ALL routes of
+//   the space x ALL origin derivations are validated by the real
+//   `RpkiTable::validate` and compared with a linear-scan RFC 6811 oracle.
+// Part (b): explicit-state BFS over maintenance histories (insert / remove /
+//   per-cache reset / session restart) against a BTreeSet reference model.
+//
+// The oracle never calls the subject: covering is computed on (u128 address,
+// length) pairs by shifting, the origin AS is a constant attached to each
+// hand-built AS_PATH shape.
 
-pub fn run(_replay: Option<&str>) -> Report {
+use crate::vx::bfs::{self, BfsCfg, Model};
+use crate::vx::enumr;
+use crate::vx::report::{catch, Report, Violation};
+use rustybgp_packet::bgp::{IpNet, Ipv4Net, Ipv6Net};
+use rustybgp_packet::{Attribute, Family, Nlri};
+use rustybgp_table::{PeerRole, Roa, RpkiTable, RpkiValidation, RpkiValidationState, Source};
+use std::collections::{BTreeMap, BTreeSet};
+use std::net::{IpAddr, Ipv4Addr, Ipv6Addr};
+use std::sync::atomic::{AtomicU64, Ordering};
+use std::sync::Arc;
+
+/// AS of the validating speaker (`Source::local_asn`).  Deliberately one of the
+/// VRP ASes so that "own AS" derivations can be Valid and a wrong fallback to
+/// the own AS (AS_SET tail) is observable.
+const OWN_AS: u32 = 65002;
+const VRP_ASES: [u32; 3] = [0, 65001, 65002];
+
+// ---------------------------------------------------------------------------
+// prefixes
+
+#[derive(Clone, Copy, PartialEq, Eq, PartialOrd, Ord, Hash, Debug)]
+struct Pfx {
+    v6: bool,
+    /// the address as an integer (IPv4: low 32 bits), host bits zero
+    addr: u128,
+    len: u8,
+}
+
+impl Pfx {
+    fn width(&self) -> u32 {
+        if self.v6 { 128 } else { 32 }
+    }
+    fn ip(&self) -> IpAddr {
+        if self.v6 {
+            IpAddr::V6(Ipv6Addr::from(self.addr))
+        } else {
+            IpAddr::V4(Ipv4Addr::from(self.addr as u32))
+        }
+    }
+    fn nlri(&self) -> Nlri {
+        match self.ip() {
+            IpAddr::V4(addr) => Nlri::V4(Ipv4Net { addr, mask: self.len }),
+            IpAddr::V6(addr) => Nlri::V6(Ipv6Net { addr, mask: self.len }),
+        }
+    }
+    fn ipnet(&self) -> IpNet {
+        IpNet::new(self.ip(), self.len)
+    }
+    fn from_ipnet(n: &IpNet) -> Pfx {
+        match n {
+            IpNet::V4(n) => Pfx { v6: false, addr: u32::from(n.addr) as u128, len: n.mask },
+            IpNet::V6(n) => Pfx { v6: true, addr: u128::from(n.addr), len: n.mask },
+        }
+    }
+    fn show(&self) -> String {
+        format!("{}/{}", self.ip(), self.len)
+    }
+    fn parse(s: &str) -> Option<Pfx> {
+        let (a, l) = s.split_once('/')?;
+        let len: u8 = l.parse().ok()?;
+        match a.parse::<IpAddr>().ok()? {
+            IpAddr::V4(a) => Some(Pfx { v6: false, addr: u32::from(a) as u128, len }),
+            IpAddr::V6(a) => Some(Pfx { v6: true, addr: u128::from(a), len }),
+        }
+    }
+    /// number of address octets that carry prefix bits
+    fn octets(&self) -> u8 {
+        self.len.div_ceil(8)
+    }
+}
+
+/// RFC 6811 "covers": `p` is equal to or shorter than `r` and the leading
+/// `p.len` bits of both are equal.
+fn covers(p: &Pfx, r: &Pfx) -> bool {
+    if p.v6 != r.v6 || p.len > r.len {
+        return false;
+    }
+    if p.len == 0 {
+        return true;
+    }
+    let shift = p.width() - p.len as u32;
+    (p.addr >> shift) == (r.addr >> shift)
+}
+
+// ---------------------------------------------------------------------------
+// VRPs
+
+#[derive(Clone, Copy, PartialEq, Eq, PartialOrd, Ord, Hash, Debug)]
+struct Vrp {
+    pfx: Pfx,
+    maxlen: u8,
+    asn: u32,
+    cache: u8,
+}
+
+/// (prefix, max-length, AS) — what the validation lists are compared on.
+type Key = (Pfx, u8, u32);
+
+impl Vrp {
+    fn key(&self) -> Key {
+        (self.pfx, self.maxlen, self.asn)
+    }
+    fn show(&self) -> String {
+        format!("{}-{}:{}@c{}", self.pfx.show(), self.maxlen, self.asn, self.cache + 1)
+    }
+    fn parse(s: &str) -> Option<Vrp> {
+        let (rest, cache) = s.rsplit_once("@c")?;
+        let (rest, asn) = rest.rsplit_once(':')?;
+        let (pfx, maxlen) = rest.rsplit_once('-')?;
+        Some(Vrp {
+            pfx: Pfx::parse(pfx)?,
+            maxlen: maxlen.parse().ok()?,
+            asn: asn.parse().ok()?,
+            cache: cache.parse::<u8>().ok()?.checked_sub(1)?,
+        })
+    }
+}
+
+fn show_key(k: &Key) -> String {
+    format!("{}-{}:{}", k.0.show(), k.1, k.2)
+}
+
+fn cache_addr(c: u8) -> IpAddr {
+    IpAddr::V4(Ipv4Addr::new(192, 0, 2, 1 + c))
+}
+
+// ---------------------------------------------------------------------------
+// embedded address spaces
+
+#[derive(Clone, Copy, Debug)]
+struct Space {
+    v6: bool,
+    offset: u8,
+    w: u8,
+    /// fixed leading `offset` bits (as a full address, other bits zero)
+    base: u128,
+}
+
+impl Space {
+    fn width(&self) -> u8 {
+        if self.v6 { 128 } else { 32 }
+    }
+    fn name(&self) -> String {
+        format!("{}+{}w{}", if self.v6 { "v6" } else { "v4" }, self.offset, self.w)
+    }
+    /// every prefix of the space: length offset+k, k in 0..=w, every value of the k free bits
+    fn prefixes(&self) -> Vec<Pfx> {
+        let mut v = Vec::new();
+        for k in 0..=self.w {
+            let len = self.offset + k;
+            for val in 0..(1u128 << k) {
+                let addr = if k == 0 { self.base } else { self.base | (val << (self.width() as u32 - len as u32)) };
+                v.push(Pfx { v6: self.v6, addr, len });
+            }
+        }
+        v
+    }
+    fn vrps(&self) -> Vec<Vrp> {
+        let top = self.offset + self.w;
+        let mut v = Vec::new();
+        for pfx in self.prefixes() {
+            let mut maxlens: Vec<u8> = (pfx.len..=top).collect();
+            if top < self.width() {
+                maxlens.push(self.width());
+            }
+            for ml in maxlens {
+                for asn in VRP_ASES {
+                    for cache in 0..2u8 {
+                        v.push(Vrp { pfx, maxlen: ml, asn, cache });
+                    }
+                }
+            }
+        }
+        v
+    }
+}
+
+fn v4base(a: u8, b: u8, c: u8, d: u8) -> u128 {
+    u32::from(Ipv4Addr::new(a, b, c, d)) as u128
+}
+
+fn spaces_all(w: u8) -> Vec<Space> {
+    let v6 = |s: &str| u128::from(s.parse::<Ipv6Addr>().unwrap());
+    vec![
+        // lengths 6..10 straddle the /8 octet boundary
+        Space { v6: false, offset: 6, w, base: v4base(8, 0, 0, 0) },
+        // lengths 62..66 straddle the /64 boundary
+        Space { v6: true, offset: 62, w, base: v6("2001:db8:0:4::") },
+        // lengths 14..18 straddle /16
+        Space { v6: false, offset: 14, w, base: v4base(10, 4, 0, 0) },
+        // up to host routes: 124..128 (DESIGN.md says offset 126 with w = 4, which would exceed /128)
+        Space { v6: true, offset: 128 - w, w, base: v6("2001:db8::10") & !((1u128 << w) - 1) },
+        // up to host routes: 28..32
+        Space { v6: false, offset: 32 - w, w, base: v4base(192, 0, 2, 16) & !((1u128 << w) - 1) },
+        // from the default route: 0..4
+        Space { v6: false, offset: 0, w, base: 0 },
+        Space { v6: true, offset: 0, w, base: 0 },
+        // lengths 118..122 straddle /120 (last octet boundary of IPv6)
+        Space { v6: true, offset: 118, w, base: v6("2001:db8::400") },
+    ]
+}
+
+// ---------------------------------------------------------------------------
+// origin derivations
+
+#[derive(Clone, Copy, PartialEq, Eq, Debug)]
+enum Reading {
+    /// the route origin AS is this value; `None` = RFC 6811 "NONE" (matches no VRP)
+    Origin(Option<u32>),
+    /// GoBGP's reading of an AS_SET tail: the route is not validated at all
+    /// (NotFound, empty lists)
+    NotValidated,
+}
+
+struct Deriv {
+    name: &'static str,
+    /// shape class used in signatures
+    class: &'static str,
+    attrs: Arc<Vec<Attribute>>,
+    /// acceptable readings, the first one is the primary (RFC 6811 §2)
+    readings: Vec<Reading>,
+}
+
+fn as_path(segs: &[(u8, &[u32])]) -> Attribute {
+    let mut b = Vec::new();
+    for (t, asns) in segs {
+        b.push(*t);
+        b.push(asns.len() as u8);
+        for a in asns.iter() {
+            b.extend_from_slice(&a.to_be_bytes());
+        }
+    }
+    Attribute::new_with_bin(Attribute::AS_PATH, b).unwrap()
+}
+
+fn derivations() -> Vec<Deriv> {
+    const SET: u8 = Attribute::AS_PATH_TYPE_SET;
+    const SEQ: u8 = Attribute::AS_PATH_TYPE_SEQ;
+    const CSEQ: u8 = Attribute::AS_PATH_TYPE_CONFED_SEQ;
+    const CSET: u8 = Attribute::AS_PATH_TYPE_CONFED_SET;
+    let origin = || Attribute::new_with_value(Attribute::ORIGIN, 0).unwrap();
+    let med = || Attribute::new_with_value(Attribute::MULTI_EXIT_DESC, 7).unwrap();
+    let mk = |name, class, path: Option<Attribute>, readings: Vec<Reading>| {
+        let mut attrs = vec![origin()];
+        if let Some(p) = path {
+            attrs.push(p);
+        }
+        attrs.push(med());
+        Deriv { name, class, attrs: Arc::new(attrs), readings }
+    };
+    let asn = |a: u32| vec![Reading::Origin(Some(a))];
+    vec![
+        mk("seq-65001", "as-sequence-tail", Some(as_path(&[(SEQ, &[65100, 65001])])), asn(65001)),
+        // first AS 65001, origin 65002: catches "first AS" / "any AS in path"
+        mk("seq-65002", "as-sequence-tail", Some(as_path(&[(SEQ, &[65001, 65002])])), asn(65002)),
+        // origin AS for which no VRP exists
+        mk("seq-65003", "as-sequence-tail", Some(as_path(&[(SEQ, &[65001, 65003])])), asn(65003)),
+        // several AS_SEQUENCE segments: rightmost AS of the final one
+        mk("seq-seq-65001", "as-sequence-tail", Some(as_path(&[(SEQ, &[65002]), (SEQ, &[65001])])), asn(65001)),
+        mk("confed-seq-65001", "as-sequence-tail", Some(as_path(&[(CSEQ, &[65002]), (SEQ, &[65100, 65001])])), asn(65001)),
+        // AS 0 as the origin never matches anything (the statement: "matching origin AS (not AS 0)")
+        mk("seq-tail-as0", "as-sequence-tail-as0", Some(as_path(&[(SEQ, &[65001, 0])])), asn(0)),
+        // RFC 6811 §2: final segment of any other type (AS_SET) => origin "NONE".
+        // GoBGP does not validate such routes (NotFound); both are accepted, Valid never is.
+        mk(
+            "as-set-tail",
+            "as-set-tail",
+            Some(as_path(&[(SEQ, &[65001]), (SET, &[65001, 65002])])),
+            vec![Reading::Origin(None), Reading::NotValidated],
+        ),
+        mk("as-set-only", "as-set-tail", Some(as_path(&[(SET, &[65002])])), vec![Reading::Origin(None), Reading::NotValidated]),
+        // RFC 6811 §2: empty AS_PATH => the speaker's own AS
+        mk("empty-path", "empty-as-path", Some(as_path(&[])), asn(OWN_AS)),
+        // no AS_PATH attribute at all (locally originated): own AS like the empty path;
+        // RFC 6811 does not speak about it, so "NONE" is accepted as well
+        mk("no-as-path", "no-as-path", None, vec![Reading::Origin(Some(OWN_AS)), Reading::Origin(None)]),
+        // RFC 6811 §2: final segment AS_CONFED_SEQUENCE / AS_CONFED_SET => own AS
+        mk("confed-seq-only", "confed-only", Some(as_path(&[(CSEQ, &[65001])])), asn(OWN_AS)),
+        mk("confed-set-only", "confed-only", Some(as_path(&[(CSET, &[65001])])), asn(OWN_AS)),
+    ]
+}
+
+fn speaker() -> Arc<Source> {
+    Arc::new(Source::new(
+        IpAddr::V4(Ipv4Addr::new(10, 0, 0, 1)),
+        IpAddr::V4(Ipv4Addr::new(10, 0, 0, 254)),
+        65100,
+        OWN_AS,
+        Ipv4Addr::new(1, 1, 1, 1),
+        PeerRole::Ebgp,
+    ))
+}
+
+// ---------------------------------------------------------------------------
+// observation of the subject
+
+#[derive(Clone, Copy, PartialEq, Eq, PartialOrd, Ord, Debug)]
+enum St {
+    NotFound,
+    Valid,
+    Invalid,
+}
+
+#[derive(Debug, Clone, PartialEq, Eq)]
+struct Obs {
+    state: St,
+    matched: Vec<Key>,
+    unmatched_asn: Vec<Key>,
+    unmatched_length: Vec<Key>,
+}
+
+fn observe(v: Option<RpkiValidation>) -> Obs {
+    match v {
+        // `None` (empty trie for the family) counts as NotFound
+        None => Obs { state: St::NotFound, matched: vec![], unmatched_asn: vec![], unmatched_length: vec![] },
+        Some(v) => {
+            let conv = |l: &Vec<(IpNet, Roa)>| {
+                let mut k: Vec<Key> = l.iter().map(|(n, r)| (Pfx::from_ipnet(n), r.max_length, r.as_number)).collect();
+                k.sort();
+                k
+            };
+            Obs {
+                state: if v.state == RpkiValidationState::Valid {
+                    St::Valid
+                } else if v.state == RpkiValidationState::Invalid {
+                    St::Invalid
+                } else {
+                    St::NotFound
+                },
+                matched: conv(&v.matched),
+                unmatched_asn: conv(&v.unmatched_asn),
+                unmatched_length: conv(&v.unmatched_length),
+            }
+        }
+    }
+}
+
+fn build_table(vrps: &[Vrp], caches: &[Arc<IpAddr>; 2]) -> RpkiTable {
+    let mut t = RpkiTable::new();
+    for v in vrps {
+        t.insert(v.pfx.ipnet(), Arc::new(Roa::new(v.maxlen, v.asn, caches[v.cache as usize].clone())));
+    }
+    t
+}
+
+// ---------------------------------------------------------------------------
+// oracle (RFC 6811 §2, linear scan)
+
+/// multiset difference a - b on sorted vectors
+fn msub(a: &[Key], b: &[Key]) -> Vec<Key> {
+    let mut b: Vec<Key> = b.to_vec();
+    let mut out = Vec::new();
+    for x in a {
+        if let Some(i) = b.iter().position(|y| y == x) {
+            b.remove(i);
+        } else {
+            out.push(*x);
+        }
+    }
+    out
+}
+
+struct Expect {
+    covering: Vec<Key>,
+    matched: Vec<Key>,
+    state: St,
+}
+
+fn expect(vrps: &[Vrp], route: &Pfx, origin: Option<u32>) -> Expect {
+    let mut covering = Vec::new();
+    let mut matched = Vec::new();
+    for v in vrps {
+        if covers(&v.pfx, route) {
+            covering.push(v.key());
+            if v.maxlen >= route.len && v.asn != 0 && Some(v.asn) == origin {
+                matched.push(v.key());
+            }
+        }
+    }
+    covering.sort();
+    matched.sort();
+    let state = if !matched.is_empty() {
+        St::Valid
+    } else if !covering.is_empty() {
+        St::Invalid
+    } else {
+        St::NotFound
+    };
+    Expect { covering, matched, state }
+}
+
+/// Compare one observation with one reading.  Returns (state is wrong, causes).
+/// Causes are root-cause shape classes; an empty list with a wrong state means
+/// the state is inconsistent with (correct) lists.
+fn diagnose(vrps: &[Vrp], route: &Pfx, d: &Deriv, reading: Reading, obs: &Obs) -> (bool, St, BTreeSet<String>) {
+    let mut causes = BTreeSet::new();
+    let origin = match reading {
+        Reading::NotValidated => {
+            let ok = obs.state == St::NotFound && obs.matched.is_empty() && obs.unmatched_asn.is_empty() && obs.unmatched_length.is_empty();
+            if !ok {
+                causes.insert(format!("origin-as/{}", d.class));
+            }
+            return (obs.state != St::NotFound, St::NotFound, causes);
+        }
+        Reading::Origin(o) => o,
+    };
+    let exp = expect(vrps, route, origin);
+    let mut considered: Vec<Key> = Vec::new();
+    considered.extend(&obs.matched);
+    considered.extend(&obs.unmatched_asn);
+    considered.extend(&obs.unmatched_length);
+    considered.sort();
+    // 1. which VRPs were looked at: must be exactly the covering ones
+    for k in msub(&exp.covering, &considered) {
+        if k.0.len == route.len {
+            causes.insert("exact-vrp-ignored".into());
+        } else {
+            causes.insert("shorter-vrp-ignored".into());
+        }
+    }
+    for k in msub(&considered, &exp.covering) {
+        let known = vrps.iter().any(|v| v.key() == k);
+        if !known {
+            causes.insert("unknown-vrp-reported".into());
+        } else if exp.covering.contains(&k) {
+            causes.insert("vrp-reported-twice".into());
+        } else if covers(route, &k.0) {
+            causes.insert("more-specific-vrp-considered".into());
+        } else {
+            causes.insert("sibling-vrp-considered".into());
+        }
+    }
+    // 2. classification of the covering VRPs that were looked at.  A VRP that
+    // fails both on length and on AS may be listed under either "unmatched".
+    let as_ok = |k: &Key| k.2 != 0 && Some(k.2) == origin;
+    let len_ok = |k: &Key| k.1 >= route.len;
+    for k in obs.matched.iter().filter(|k| exp.covering.contains(k)) {
+        if k.2 == 0 {
+            causes.insert("as0-vrp-matched".into());
+        } else if !as_ok(k) {
+            causes.insert(format!("origin-as/{}", d.class));
+        }
+        if !len_ok(k) {
+            causes.insert("maxlen/longer-than-maxlen-matched".into());
+        }
+    }
+    for k in obs.unmatched_asn.iter().filter(|k| exp.covering.contains(k)) {
+        if as_ok(k) {
+            if len_ok(k) {
+                causes.insert(format!("origin-as/{}", d.class));
+            } else {
+                causes.insert("maxlen/length-failure-listed-as-asn".into());
+            }
+        }
+    }
+    for k in obs.unmatched_length.iter().filter(|k| exp.covering.contains(k)) {
+        if len_ok(k) {
+            causes.insert("maxlen/within-maxlen-rejected".into());
+        }
+    }
+    (obs.state != exp.state, exp.state, causes)
+}
+
+/// Full check of one validation; returns (signature, what) pairs (empty = holds).
+fn check_validation(vrps: &[Vrp], route: &Pfx, d: &Deriv, obs: &Obs) -> Vec<(String, String)> {
+    let mut first: Option<(bool, St, BTreeSet<String>)> = None;
+    for r in &d.readings {
+        let (bad_state, exp_state, causes) = diagnose(vrps, route, d, *r, obs);
+        if !bad_state && causes.is_empty() {
+            return vec![];
+        }
+        if first.is_none() {
+            first = Some((bad_state, exp_state, causes));
+        }
+    }
+    let (bad_state, exp_state, causes) = first.unwrap();
+    let clause = if bad_state { "state" } else { "lists" };
+    let what = format!(
+        "route {} ({}) against {{{}}}: expected {:?}, observed {:?} matched=[{}] unmatched_asn=[{}] unmatched_length=[{}]",
+        route.show(),
+        d.name,
+        vrps.iter().map(|v| v.show()).collect::<Vec<_>>().join(", "),
+        exp_state,
+        obs.state,
+        obs.matched.iter().map(show_key).collect::<Vec<_>>().join(","),
+        obs.unmatched_asn.iter().map(show_key).collect::<Vec<_>>().join(","),
+        obs.unmatched_length.iter().map(show_key).collect::<Vec<_>>().join(","),
+    );
+    if causes.is_empty() {
+        return vec![(format!("C12/state/inconsistent-with-lists/exp={:?},got={:?}", exp_state, obs.state), what)];
+    }
+    causes.into_iter().map(|c| (format!("C12/{clause}/{c}"), what.clone())).collect()
+}
+
+fn val_case(vrps: &[Vrp], route: &Pfx, d: &Deriv) -> String {
+    format!(
+        "val#{}#{}#{}",
+        vrps.iter().map(|v| v.show()).collect::<Vec<_>>().join(","),
+        route.show(),
+        d.name
+    )
+}
+
+/// Run the subject on one (VRP set, route, derivation) and evaluate the oracle.
+fn eval_one(t: &RpkiTable, src: &Arc<Source>, vrps: &[Vrp], route: &Pfx, d: &Deriv) -> Vec<(String, String)> {
+    let nlri = route.nlri();
+    match catch(|| observe(t.validate(src, &nlri, &d.attrs))) {
+        Ok(obs) => check_validation(vrps, route, d, &obs),
+        Err(msg) => vec![(
+            format!("C12/panic/{}", bfs::panic_loc(&msg)),
+            format!("validate panicked ({msg}) for route {} ({})", route.show(), d.name),
+        )],
+    }
+}
+
+// ---------------------------------------------------------------------------
+// part (a): the sweep
+
+/// relation of a VRP prefix to a route, for outcome classes
+fn relation(v: &Pfx, r: &Pfx) -> u32 {
+    if v.len == r.len && v.addr == r.addr {
+        0 // exact
+    } else if covers(v, r) {
+        if v.octets() == r.octets() { 1 } else { 2 } // shorter, same / fewer key octets
+    } else if covers(r, v) {
+        if v.octets() == r.octets() { 3 } else { 4 } // more specific
+    } else {
+        5 // disjoint
+    }
+}
+
+/// Keep, per signature, the shortest witness (ties: lexicographically smallest case)
+/// so that the witness does not depend on the thread schedule.
+fn keep(m: &mut BTreeMap<String, (Violation, u64)>, v: Violation, n: u64) {
+    match m.get_mut(&v.sig) {
+        Some((old, c)) => {
+            *c += n;
+            if (v.case.len(), v.case.as_str()) < (old.case.len(), old.case.as_str()) {
+                *old = v;
+            }
+        }
+        None => {
+            m.insert(v.sig.clone(), (v, n));
+        }
+    }
+}
+
+fn for_sets(n: usize, first: usize, max: usize, cur: &mut Vec<usize>, f: &mut dyn FnMut(&[usize])) {
+    // all strictly increasing index tuples that start with `first`, size <= max
+    cur.push(first);
+    f(cur);
+    if cur.len() < max {
+        for nxt in first + 1..n {
+            for_sets(n, nxt, max, cur, f);
+        }
+    }
+    cur.pop();
+}
+
+fn n_sets(n: u64, max: usize) -> u64 {
+    let mut total = 0u64;
+    let mut c = 1u64; // C(n, k)
+    for k in 0..=max as u64 {
+        if k > 0 {
+            c = c * (n - k + 1) / k;
+        }
+        total += c;
+    }
+    total
+}
+
+fn sweep(space: &Space, max_set: usize, rep: &mut Report) {
+    let t0 = std::time::Instant::now();
+    let universe = space.vrps();
+    let routes = space.prefixes();
+    let derivs = derivations();
+    // the enumeration is duplicate-free by construction; make that a checked fact
+    let uniq: BTreeSet<Vrp> = universe.iter().copied().collect();
+    let uniq_r: BTreeSet<Pfx> = routes.iter().copied().collect();
+    if uniq.len() != universe.len() || uniq_r.len() != routes.len() {
+        rep.machinery_error = Some(format!("{}: universe contains duplicates", space.name()));
+        return;
+    }
+    let n = universe.len();
+    let sets_total = AtomicU64::new(0);
+    let found: std::sync::Mutex<BTreeMap<String, (Violation, u64)>> = std::sync::Mutex::new(BTreeMap::new());
+    let mut local = Report::new(&rep.property, &rep.part);
+    // work item i < n: all sets whose smallest element is i; item n: the empty set
+    enumr::par_range(n as u64 + 1, &mut local, |i, lr| {
+        let src = speaker();
+        let caches = [Arc::new(cache_addr(0)), Arc::new(cache_addr(1))];
+        let mut classes: BTreeMap<u32, u64> = BTreeMap::new();
+        let mut evals = 0u64;
+        let mut nontrivial = 0u64;
+        let mut nsets = 0u64;
+        let mut viols: BTreeMap<String, (Violation, u64)> = BTreeMap::new();
+        let mut body = |idx: &[usize]| {
+            nsets += 1;
+            let vrps: Vec<Vrp> = idx.iter().map(|&j| universe[j]).collect();
+            let t = build_table(&vrps, &caches);
+            for route in &routes {
+                let mut rel: Vec<u32> = vrps.iter().map(|v| relation(&v.pfx, route)).collect();
+                rel.sort();
+                let related = rel.iter().any(|&r| r != 5);
+                let relbits = rel.iter().fold(1u32, |a, r| a * 8 + r);
+                for (di, d) in derivs.iter().enumerate() {
+                    evals += 1;
+                    if related {
+                        nontrivial += 1;
+                    }
+                    let out = eval_one(&t, &src, &vrps, route, d);
+                    // outcome class: relations x derivation x primary expected state
+                    let exp = match d.readings[0] {
+                        Reading::Origin(o) => expect(&vrps, route, o),
+                        Reading::NotValidated => unreachable!(),
+                    };
+                    let cls = (relbits << 8) | ((di as u32) << 4) | ((exp.state as u32) << 2) | (exp.matched.len().min(3) as u32);
+                    *classes.entry(cls).or_insert(0) += 1;
+                    for (sig, what) in out {
+                        keep(&mut viols, Violation { sig, what, case: val_case(&vrps, route, d) }, 1);
+                    }
+                }
+            }
+        };
+        if (i as usize) < n {
+            let mut cur = Vec::new();
+            for_sets(n, i as usize, max_set, &mut cur, &mut body);
+        } else {
+            body(&[]);
+        }
+        sets_total.fetch_add(nsets, Ordering::Relaxed);
+        lr.evaluations += evals;
+        lr.distinct_nontrivial += nontrivial;
+        for (c, k) in classes {
+            lr.add(&format!("oc:{c:x}"), k);
+        }
+        let mut g = found.lock().unwrap();
+        for (_, (v, k)) in viols {
+            keep(&mut g, v, k);
+        }
+    });
+    local.violations = found.into_inner().unwrap();
+    // fold the outcome classes into counts
+    let mut n_classes = 0u64;
+    let mut by_state = [0u64; 3];
+    let keys: Vec<String> = local.extra.keys().filter(|k| k.starts_with("oc:")).cloned().collect();
+    for k in keys {
+        let cnt = local.extra.remove(&k).unwrap();
+        let c = u32::from_str_radix(&k[3..], 16).unwrap();
+        n_classes += 1;
+        by_state[((c >> 2) & 3) as usize] += cnt;
+    }
+    let sets = sets_total.load(Ordering::Relaxed);
+    let expected_sets = n_sets(n as u64, max_set);
+    if sets != expected_sets {
+        rep.machinery_error = Some(format!("{}: enumerated {} sets, expected {}", space.name(), sets, expected_sets));
+    }
+    local.add("validation_outcome_classes", n_classes);
+    local.add("expected_notfound", by_state[St::NotFound as usize]);
+    local.add("expected_valid", by_state[St::Valid as usize]);
+    local.add("expected_invalid", by_state[St::Invalid as usize]);
+    let line = format!(
+        "sweep {}: vrp universe={} routes={} derivations={} sets(size<={})={} validations={} related={} outcome-classes={} expected NotFound/Valid/Invalid={}/{}/{} violations(sigs)={} wall={:.1}s",
+        space.name(),
+        n,
+        routes.len(),
+        derivs.len(),
+        max_set,
+        sets,
+        local.evaluations,
+        local.distinct_nontrivial,
+        n_classes,
+        by_state[0],
+        by_state[1],
+        by_state[2],
+        local.violations.len(),
+        t0.elapsed().as_secs_f64()
+    );
+    local.notes.push(line);
+    rep.merge(local);
+}
+
+// ---------------------------------------------------------------------------
+// part (b): maintenance BFS
+
+#[derive(Clone, Copy, Debug)]
+enum Op {
+    Insert(u8, usize),
+    Remove(u8, usize),
+    /// per-cache reset inside a session: `drop_source` with the session's handle
+    Reset(u8),
+    /// session end + reconnect: `drop_source`, then a fresh `Arc<IpAddr>` for the cache
+    Restart(u8),
+}
+
+struct Maint {
+    ops: Vec<Op>,
+    vrps: Vec<(Pfx, u8, u32)>,
+    routes: Vec<Pfx>,
+    derivs: Vec<Deriv>,
+    src: Arc<Source>,
+    /// states (transitions into them) in which state() deviates from GoBGP's counts — observation only
+    count_deviation: AtomicU64,
+    count_checked: AtomicU64,
+}
+
+struct MSys {
+    t: RpkiTable,
+    arcs: [Arc<IpAddr>; 2],
+    /// reference: set keyed by (cache, prefix, max-length, AS)
+    model: BTreeSet<(u8, Pfx, u8, u32)>,
+    broken: BTreeSet<String>,
+}
+
+fn maint_model() -> Maint {
+    let p = |s: &str| Pfx::parse(s).unwrap();
+    let vrps = vec![
+        // A and B share the trie key, differ in max-length and AS
+        (p("10.0.0.0/8"), 16, 65001),
+        (p("10.0.0.0/8"), 24, 65002),
+        // C: more specific of A/B
+        (p("10.1.0.0/16"), 16, 65001),
+        // D: the other family
+        (p("2001:db8::/32"), 48, 65001),
+    ];
+    let mut ops = Vec::new();
+    for c in 0..2u8 {
+        for v in 0..vrps.len() {
+            ops.push(Op::Insert(c, v));
+        }
+    }
+    for c in 0..2u8 {
+        for v in 0..vrps.len() {
+            ops.push(Op::Remove(c, v));
+        }
+    }
+    for c in 0..2u8 {
+        ops.push(Op::Reset(c));
+        ops.push(Op::Restart(c));
+    }
+    Maint {
+        ops,
+        vrps,
+        routes: vec![
+            p("10.0.0.0/8"),
+            p("10.1.0.0/16"),
+            p("10.1.0.0/24"),
+            p("10.1.2.0/24"),
+            p("10.1.2.0/25"),
+            p("10.128.0.0/9"),
+            p("11.0.0.0/8"),
+            p("10.0.0.0/7"),
+            p("2001:db8::/32"),
+            p("2001:db8:1::/48"),
+            p("2001:db8:1::/49"),
+            p("2001:db8::/31"),
+        ],
+        derivs: derivations(),
+        src: speaker(),
+        count_deviation: AtomicU64::new(0),
+        count_checked: AtomicU64::new(0),
+    }
+}
+
+impl Maint {
+    /// iter() of both families as (family, cache, held by the live session handle, prefix, maxlen, as), trie order
+    fn dump(&self, sys: &MSys) -> Vec<(u8, u8, bool, Pfx, u8, u32)> {
+        let mut out = Vec::new();
+        for (fi, fam) in [Family::IPV4, Family::IPV6].into_iter().enumerate() {
+            for (net, roa) in sys.t.iter(fam) {
+                let cache = (0..2u8).find(|c| cache_addr(*c) == *roa.source).unwrap_or(9);
+                let live = cache < 2 && Arc::ptr_eq(&roa.source, &sys.arcs[cache as usize]);
+                out.push((fi as u8, cache, live, Pfx::from_ipnet(&net), roa.max_length, roa.as_number));
+            }
+        }
+        out
+    }
+
+    fn check(&self, sys: &MSys, kind: &str, cur: &mut Vec<(String, String)>) {
+        // --- set semantics of iter()
+        let dump = self.dump(sys);
+        let mut seen: Vec<(u8, Pfx, u8, u32)> = dump.iter().map(|d| (d.1, d.3, d.4, d.5)).collect();
+        seen.sort();
+        let want: Vec<(u8, Pfx, u8, u32)> = sys.model.iter().copied().collect();
+        let show = |v: &[(u8, Pfx, u8, u32)]| {
+            v.iter().map(|x| format!("{}-{}:{}@c{}", x.1.show(), x.2, x.3, x.0 + 1)).collect::<Vec<_>>().join(", ")
+        };
+        let mut effects = BTreeSet::new();
+        let mut dedup = seen.clone();
+        dedup.dedup();
+        if dedup.len() != seen.len() {
+            effects.insert("vrp-duplicated");
+        }
+        if want.iter().any(|w| !dedup.contains(w)) {
+            effects.insert("vrp-missing");
+        }
+        if dedup.iter().any(|s| !want.contains(s)) {
+            effects.insert("vrp-extra");
+        }
+        if dump.iter().any(|d| !d.2) {
+            effects.insert("vrp-of-ended-session-left");
+        }
+        for (fi, _) in [Family::IPV4, Family::IPV6].iter().enumerate() {
+            // iter(family) must only yield prefixes of that family
+            if dump.iter().any(|d| d.0 == fi as u8 && d.3.v6 != (fi == 1)) {
+                effects.insert("vrp-in-wrong-family");
+            }
+        }
+        for e in &effects {
+            cur.push((
+                format!("C12/set/{kind}/{e}"),
+                format!("after {kind}: iter() = {{{}}}, reference set = {{{}}}", show(&seen), show(&want)),
+            ));
+        }
+        if !effects.is_empty() {
+            return; // everything below would only inherit the damage
+        }
+        // --- state(addr): the per-cache VRP count must be reported by one of the two counters
+        for c in 0..2u8 {
+            let st = sys.t.state(&cache_addr(c));
+            for v6 in [false, true] {
+                let mine: Vec<&(u8, Pfx, u8, u32)> = sys.model.iter().filter(|m| m.0 == c && m.1.v6 == v6).collect();
+                let n_vrps = mine.len() as u32;
+                let n_pfx = mine.iter().map(|m| m.1).collect::<BTreeSet<_>>().len() as u32;
+                let (rec, pfx) = if v6 { (st.num_records_v6, st.num_prefixes_v6) } else { (st.num_records_v4, st.num_prefixes_v4) };
+                if rec != n_vrps && pfx != n_vrps {
+                    cur.push((
+                        format!("C12/counts/{}", if v6 { "v6" } else { "v4" }),
+                        format!(
+                            "state(c{}) reports records={rec} prefixes={pfx}; the cache holds {n_vrps} VRPs on {n_pfx} prefixes — neither counter is the VRP count",
+                            c + 1
+                        ),
+                    ));
+                }
+                self.count_checked.fetch_add(1, Ordering::Relaxed);
+                // GoBGP: records = VRPs, prefixes = distinct prefixes (either naming accepted here)
+                if !((rec == n_vrps && pfx == n_pfx) || (rec == n_pfx && pfx == n_vrps)) {
+                    self.count_deviation.fetch_add(1, Ordering::Relaxed);
+                }
+            }
+        }
+        // --- validation of a handful of routes against the reference set
+        let vrps: Vec<Vrp> = sys.model.iter().map(|m| Vrp { cache: m.0, pfx: m.1, maxlen: m.2, asn: m.3 }).collect();
+        for route in &self.routes {
+            for d in &self.derivs {
+                cur.extend(eval_one(&sys.t, &self.src, &vrps, route, d));
+            }
+        }
+    }
+}
+
+impl Model for Maint {
+    type Sys = MSys;
+    fn name(&self) -> String {
+        "c12-maint".into()
+    }
+    fn n_ops(&self) -> usize {
+        self.ops.len()
+    }
+    fn op_name(&self, op: usize) -> String {
+        let v = |i: usize| format!("{}-{}:{}", self.vrps[i].0.show(), self.vrps[i].1, self.vrps[i].2);
+        match self.ops[op] {
+            Op::Insert(c, i) => format!("insert(c{},{})", c + 1, v(i)),
+            Op::Remove(c, i) => format!("remove(c{},{})", c + 1, v(i)),
+            Op::Reset(c) => format!("reset(c{})", c + 1),
+            Op::Restart(c) => format!("restart(c{})", c + 1),
+        }
+    }
+    fn init(&self) -> MSys {
+        MSys {
+            t: RpkiTable::new(),
+            arcs: [Arc::new(cache_addr(0)), Arc::new(cache_addr(1))],
+            model: BTreeSet::new(),
+            broken: BTreeSet::new(),
+        }
+    }
+    fn step(&self, sys: &mut MSys, op: usize, out: &mut Vec<(String, String)>) -> bool {
+        let kind;
+        match self.ops[op] {
+            Op::Insert(c, i) => {
+                let (p, ml, asn) = self.vrps[i];
+                kind = if sys.model.contains(&(c, p, ml, asn)) { "insert-present" } else { "insert-new" };
+                sys.t.insert(p.ipnet(), Arc::new(Roa::new(ml, asn, sys.arcs[c as usize].clone())));
+                sys.model.insert((c, p, ml, asn));
+            }
+            Op::Remove(c, i) => {
+                let (p, ml, asn) = self.vrps[i];
+                kind = if sys.model.contains(&(c, p, ml, asn)) { "remove-present" } else { "remove-absent" };
+                sys.t.remove(p.ipnet(), &Roa::new(ml, asn, sys.arcs[c as usize].clone()));
+                sys.model.remove(&(c, p, ml, asn));
+            }
+            Op::Reset(c) => {
+                kind = "reset";
+                sys.t.drop_source(sys.arcs[c as usize].clone());
+                sys.model.retain(|m| m.0 != c);
+            }
+            Op::Restart(c) => {
+                kind = "restart";
+                sys.t.drop_source(sys.arcs[c as usize].clone());
+                sys.arcs[c as usize] = Arc::new(cache_addr(c));
+                sys.model.retain(|m| m.0 != c);
+            }
+        }
+        let mut cur = Vec::new();
+        self.check(sys, kind, &mut cur);
+        // a clause is reported on the step that breaks it, not on later states inheriting the damage;
+        // validation clauses (state/lists/panic) are stateless and reported wherever they show
+        let mut now = BTreeSet::new();
+        for (sig, what) in cur {
+            let clause = sig.split('/').nth(1).unwrap_or("").to_string();
+            let sticky = clause == "set" || clause == "counts";
+            if !(sticky && sys.broken.contains(&clause)) {
+                out.push((sig, what));
+            }
+            if sticky {
+                now.insert(clause);
+            }
+        }
+        sys.broken = now;
+        true
+    }
+    fn fingerprint(&self, sys: &MSys) -> Vec<u8> {
+        // trie order and the order inside each entry are kept: they are real state
+        format!("{:?}|{:?}|{:?}", self.dump(sys), sys.model, sys.broken).into_bytes()
+    }
+    fn observe(&self, sys: &MSys) -> u64 {
+        let mut d = self.dump(sys);
+        d.sort();
+        bfs::hash128(format!("{d:?}").as_bytes()) as u64
+    }
+    fn panic_sig(&self, msg: &str) -> Option<(String, String)> {
+        Some((format!("C12/panic/{}", bfs::panic_loc(msg)), format!("RPKI table maintenance panicked: {msg}")))
+    }
+}
+
+// ---------------------------------------------------------------------------
+// entry
+
+fn replay_val(case: &str, rep: &mut Report) {
+    let parts: Vec<&str> = case.split('#').collect();
+    if parts.len() != 4 {
+        rep.machinery_error = Some(format!("bad val case {case:?}"));
+        return;
+    }
+    let vrps: Option<Vec<Vrp>> = if parts[1].is_empty() { Some(vec![]) } else { parts[1].split(',').map(Vrp::parse).collect() };
+    let route = Pfx::parse(parts[2]);
+    let derivs = derivations();
+    let d = derivs.iter().find(|d| d.name == parts[3]);
+    let (Some(vrps), Some(route), Some(d)) = (vrps, route, d) else {
+        rep.machinery_error = Some(format!("cannot parse val case {case:?}"));
+        return;
+    };
+    let caches = [Arc::new(cache_addr(0)), Arc::new(cache_addr(1))];
+    let t = build_table(&vrps, &caches);
+    let src = speaker();
+    eprintln!("replay validation: VRPs {{{}}}", vrps.iter().map(|v| v.show()).collect::<Vec<_>>().join(", "));
+    eprintln!("  route {} derivation {} (own AS {OWN_AS}) readings {:?}", route.show(), d.name, d.readings);
+    match catch(|| observe(t.validate(&src, &route.nlri(), &d.attrs))) {
+        Ok(obs) => {
+            eprintln!("  observed: {obs:?}");
+            for r in &d.readings {
+                if let Reading::Origin(o) = r {
+                    let e = expect(&vrps, &route, *o);
+                    eprintln!(
+                        "  oracle (origin {:?}): state {:?}, covering [{}], matched [{}]",
+                        o,
+                        e.state,
+                        e.covering.iter().map(show_key).collect::<Vec<_>>().join(","),
+                        e.matched.iter().map(show_key).collect::<Vec<_>>().join(",")
+                    );
+                } else {
+                    eprintln!("  oracle (not validated): NotFound, empty lists");
+                }
+            }
+        }
+        Err(m) => eprintln!("  subject panicked: {m}"),
+    }
+    rep.evaluations = 1;
+    for (sig, what) in eval_one(&t, &src, &vrps, &route, d) {
+        eprintln!("  VIOLATION {sig}: {what}");
+        rep.violation(Violation { sig, what, case: val_case(&vrps, &route, d) });
+    }
+}
+
+pub fn run(replay: Option<&str>) -> Report {
     let mut rep = Report::new("C12", "hx-c12");
-    rep.machinery_error = Some("harness not built yet".into());
+    let maint = maint_model();
+    if let Some(case) = replay {
+        if case.starts_with("val#") {
+            replay_val(case, &mut rep);
+            return rep;
+        }
+        let Some((name, hist)) = bfs::decode_case(case) else {
+            rep.machinery_error = Some("bad replay case".into());
+            return rep;
+        };
+        if name != maint.name() || hist.iter().any(|&o| o as usize >= maint.n_ops()) {
+            rep.machinery_error = Some(format!("unknown model / op in {case:?}"));
+            return rep;
+        }
+        eprintln!("replay {}", bfs::render(&maint, &hist));
+        // only the violations of the last step belong to this case
+        let vs: Vec<Violation> = bfs::replay(&maint, &hist, true);
+        let full = bfs::encode_case(&maint, &hist);
+        rep.evaluations = 1;
+        rep.violations_from(vs.into_iter().filter(|v| v.case == full).collect());
+        return rep;
+    }
+
+    let thorough = rep.thorough();
+    let all = spaces_all(4);
+    let spaces: Vec<Space> = if thorough { all } else { all.into_iter().take(2).collect() };
+    rep.rule = format!(
+        "(a) per embedded space (w=4 free bits at a bit offset of a real address): every VRP set of size <= 2 over \
+         {{prefix of length offset..offset+w, every value}} x {{max-len in len..offset+w and the family maximum}} x AS {{0,65001,65002}} x 2 caches, \
+         crossed with every route prefix of the space and {} origin derivations; {}every case is a distinct input by construction \
+         (strictly increasing index tuples over a duplicate-free universe, checked); non-trivial = at least one VRP of the set covers, equals or is more specific than the route. \
+         (b) BFS to fixpoint over insert/remove/reset/restart of 4 VRPs x 2 caches on a real RpkiTable; state = history, \
+         fingerprint = iter() in trie/entry order + reference set; non-trivial = distinct canonical table state other than the empty one",
+        derivations().len(),
+        if thorough { "thorough adds sets of size 3 over w=3 spaces; " } else { "" },
+    );
+    for s in &spaces {
+        sweep(s, 2, &mut rep);
+        if rep.machinery_error.is_some() {
+            return rep;
+        }
+    }
+    if thorough {
+        for s in spaces_all(3).into_iter().take(2) {
+            sweep(&s, 3, &mut rep);
+            if rep.machinery_error.is_some() {
+                return rep;
+            }
+        }
+    }
+    // a few concrete cases written out
+    {
+        let s = &spaces[0];
+        let u = s.vrps();
+        let r = s.prefixes();
+        let d = derivations();
+        for (a, b, ri, di) in [(0usize, 7usize, 1usize, 0usize), (40, 300, 9, 6), (100, 527, 30, 8), (250, 251, 17, 1)] {
+            if a < u.len() && b < u.len() && ri < r.len() && di < d.len() {
+                rep.samples.push(val_case(&[u[a], u[b]], &r[ri], &d[di]));
+            }
+        }
+    }
+
+    // part (b)
+    let cfg = BfsCfg { max_depth: 40, max_secs: if thorough { 1200 } else { 40 }, ..Default::default() };
+    let st = bfs::bfs(&maint, &cfg, &mut rep);
+    if !st.fixpoint {
+        rep.exhaustive = false;
+        rep.caps_hit.push("c12-maint: BFS did not reach the fixpoint".into());
+    }
+    rep.notes.push(format!(
+        "c12-maint: state(addr) compared with GoBGP's (records = VRPs of the cache, prefixes = distinct prefixes, either naming) on {} (transition, cache, family) observations: {} deviate — observation only, the statement does not fix these counters; asserted is only that one counter equals the cache's VRP count",
+        maint.count_checked.load(Ordering::Relaxed),
+        maint.count_deviation.load(Ordering::Relaxed)
+    ));
+    rep.add("state_count_observations", maint.count_checked.load(Ordering::Relaxed));
+    rep.add("state_count_deviations_from_gobgp", maint.count_deviation.load(Ordering::Relaxed));
+    rep.notes.push(format!(
+        "assume: the validating speaker's own AS is Source::local_asn ({OWN_AS} here); routes of Source::local()/kernel() (local_asn 0) are not covered"
+    ));
+    rep.notes.push(
+        "assume: AS_SET-terminated paths: RFC 6811 origin NONE (Invalid when covered) and GoBGP's NotFound are both accepted, Valid never; a route without AS_PATH attribute may be validated with the own AS or with NONE".into(),
+    );
+    rep.notes.push("assume: VRP and route prefixes are canonical (host bits zero) and VRP max-length >= prefix length".into());
     rep
 }
